@@ -230,3 +230,26 @@
         &&& (tag(n) == "element"@ ==> r.rust_type is Element)
         &&& (!(tag(n) == "complexType"@ || tag(n) == "group"@ || tag(n) == "simpleType"@ || tag(n) == "element"@) ==> r.rust_type is Ignore)
     }
+//# section: simple-type-spec
+    // C07 (generator half): the facets of a simple type are those its `restriction` child declares
+    pub open spec fn is_restr(n: Node) -> bool { is_elem(n) && tag(n) == "restriction"@ }
+    pub open spec fn first_restriction(n: Node, r: Node) -> bool {
+        exists|i: int| 0 <= i < all_kids(n).len() && #[trigger] all_kids(n)[i] == r && is_restr(r)
+            && forall|j: int| 0 <= j < i ==> !is_restr(#[trigger] all_kids(n)[j])
+    }
+    pub open spec fn facets_of(r: Node, x: Restrictions) -> bool {
+        &&& facet_is(r, "minInclusive"@, None, opt_view(x.min_inclusive))
+        &&& facet_is(r, "maxInclusive"@, None, opt_view(x.max_inclusive))
+        &&& facet_is(r, "minExclusive"@, None, opt_view(x.min_exclusive))
+        &&& facet_is(r, "maxExclusive"@, None, opt_view(x.max_exclusive))
+        &&& facet_is(r, "totalDigits"@, None, opt_view(x.total_digits))
+        &&& facet_is(r, "fractionDigits"@, None, opt_view(x.fraction_digits))
+        &&& facet_is(r, "length"@, None, opt_view(x.length))
+        &&& facet_is(r, "minLength"@, None, opt_view(x.min_length))
+        &&& facet_is(r, "maxLength"@, None, opt_view(x.max_length))
+        &&& facet_is(r, "whiteSpace"@, None, opt_view(x.white_space))
+        &&& facet_is(r, "pattern"@, None, opt_view(x.pattern))
+    }
+    pub open spec fn simple_ok(n: Node, p: SimpleProps) -> bool {
+        forall|r: Node| first_restriction(n, r) ==> p.restrictions is Some && facets_of(r, p.restrictions->0) && attr(n, "name"@) == Some(p.xml_name@)
+    }
